@@ -110,3 +110,97 @@ def main(tier, replay=None):  # noqa: F811  (supersedes the definition above)
     if replay:
         return inst_check.replay("C01", replay, 2)
     return inst_check.run("C01", tier, 2, GENS, 400, 6000, ASSUMPTIONS, post=line_injection)
+
+
+# ---------------------------------------------------------------------------
+# KeyedList / KeyedSet-typed attributes (outside the instance model; containers
+# proved in C13/C14): implementation-only exploration of copy-on-write element
+# and scalar helpers — the receiver's keyed containers (list view, key index,
+# item identities and contents) and the argument objects are unchanged
+# whether the call returns or raises.
+def keyed_attributes(chk, cases, bad, extra):
+    from typing import Optional
+
+    from spec_classes import Attr, spec_class
+    from spec_classes.types import KeyedList, KeyedSet
+
+    @spec_class(key="k")
+    class Item:
+        k: str
+        v: int = 0
+
+    @spec_class
+    class Holder:
+        items: KeyedList[Item, str] = Attr(default_factory=KeyedList)
+        tags: KeyedSet[Item, str] = Attr(default_factory=KeyedSet)
+        n: Optional[int] = None
+
+    def snap_items(c):
+        if c is None:
+            return None
+        return (id(c), [(id(x), x.k, x.v) for x in getattr(c, "_list", [])],
+                sorted((k, id(v), v.k, v.v) for k, v in c._dict.items()))
+
+    def snap(h):
+        return [snap_items(h.__dict__.get("items")), snap_items(h.__dict__.get("tags")), h.__dict__.get("n")]
+
+    def boom(_):
+        raise RuntimeError("callback raises")
+    rng = chk.rng
+    keys = ["a", "b", "c", "d"]
+    n = 400 if chk.tier == "quick" else 6000
+    tried = raised = 0
+    for _ in range(n):
+        ks = rng.sample(keys, rng.choice([1, 2, 3]))
+        h = Holder(items=[Item(k, v=i) for i, k in enumerate(ks)], tags=[Item(k, v=i) for i, k in enumerate(ks)])
+        idx = rng.choice([0, 1, -1, 2, 5])
+        arg = Item(rng.choice(keys), v=7)
+        arg_list = KeyedList[Item, str]([Item(k, v=5) for k in rng.sample(keys, 2)])
+        op = rng.choice([
+            ("with_item(arg)", lambda: h.with_item(arg)),
+            ("with_item(arg, _index)", lambda: h.with_item(arg, _index=idx)),
+            ("with_item(arg, _index, _insert)", lambda: h.with_item(arg, _index=idx, _insert=True)),
+            ("with_item(key)", lambda: h.with_item(rng.choice(keys))),
+            ("with_item(key, v=)", lambda: h.with_item(rng.choice(keys), v=3)),
+            ("update_item(key, v=)", lambda: h.update_item(rng.choice(keys), v=rng.choice([4, "x"]))),
+            ("update_item(idx, arg)", lambda: h.update_item(idx, arg, _by_index=True)),
+            ("transform_item(key, v=fn)", lambda: h.transform_item(rng.choice(keys), v=rng.choice([boom, lambda v: v + 1]))),
+            ("without_item(key)", lambda: h.without_item(rng.choice(keys))),
+            ("with_items(list)", lambda: h.with_items(arg_list)),
+            ("transform_items(fn)", lambda: h.transform_items(lambda l: l + [arg])),
+            ("with_tag(arg)", lambda: h.with_tag(arg)),
+            ("update_tag(key, v=)", lambda: h.update_tag(rng.choice(keys), v=rng.choice([4, "x"]))),
+            ("transform_tag(key, v=fn)", lambda: h.transform_tag(rng.choice(keys), v=rng.choice([boom, lambda v: v + 1]))),
+            ("without_tag(key)", lambda: h.without_tag(rng.choice(keys))),
+            ("reset_items", lambda: h.reset_items()),
+            ("update(n=, items=)", lambda: h.update(n=1, items=arg_list)),
+        ])
+        before = (snap(h), (arg.k, arg.v), snap_items(arg_list))
+        tried += 1
+        outcome = "returned"
+        try:
+            op[1]()
+        except BaseException as e:
+            if isinstance(e, (KeyboardInterrupt, SystemExit)):
+                raise
+            raised += 1
+            outcome = "raised " + type(e).__name__
+        after = (snap(h), (arg.k, arg.v), snap_items(arg_list))
+        if after != before:
+            chk.violation(f"copy-on-write helper {op[0]} ({outcome}) changed the receiver's keyed container or an argument",
+                          {"holder_items": ks, "op": op[0], "index": idx, "before": before, "after": after},
+                          sig={"kind": "keyed-attribute", "op": op[0]})
+            break
+    extra["keyed_attributes"] = {"operations": tried, "raised": raised,
+                                 "rule": "implementation only: KeyedList/KeyedSet attributes of keyed spec items; copy-on-write scalar and element helpers; oracle: receiver and arguments unchanged whether the call returns or raises"}
+
+
+def _post(chk, cases, bad, extra):
+    line_injection(chk, cases, bad, extra)
+    keyed_attributes(chk, cases, bad, extra)
+
+
+def main(tier, replay=None):  # noqa: F811
+    if replay:
+        return inst_check.replay("C01", replay, 2)
+    return inst_check.run("C01", tier, 2, GENS, 400, 6000, ASSUMPTIONS, post=_post)
